@@ -19,7 +19,14 @@ import (
 // SplitMix64 — every random choice of a harness derives from one state seeded by VERIF_SEED.
 type Rng struct{ s uint64 }
 
-func NewRng(seed uint64) *Rng { return &Rng{s: seed*0x9E3779B97F4A7C15 + 0x1234567} }
+// NewRng: the seed is mixed first so that consecutive seeds give unrelated streams (the raw Weyl
+// sequence of seed and seed+1 would be the same stream shifted by one draw).
+func NewRng(seed uint64) *Rng {
+	z := seed + 0x9E3779B97F4A7C15
+	z = (z ^ (z >> 30)) * 0xBF58476D1CE4E5B9
+	z = (z ^ (z >> 27)) * 0x94D049BB133111EB
+	return &Rng{s: z ^ (z >> 31)}
+}
 func (r *Rng) U64() uint64 {
 	r.s += 0x9E3779B97F4A7C15
 	z := r.s
